@@ -268,6 +268,30 @@ def no_hidden(L, s, cols, lines):
     return r
 
 
+def hidden_same(L, a, b, cols, lines):
+    """The storage beyond the screen (row keys >= lines, cell keys >= columns) of two states is identical:
+    every position there holds the same cell in both (absent = default blank).  (What is stored out of sight is not observable
+    now, but a later growth shows it, so two states that are to behave alike from here on must agree on it.)"""
+    keys = set()
+    for s in (a, b):
+        for (ky, py, row) in scr(L, s, 'buffer').e:
+            if py is False or not ky.concrete:
+                continue
+            for (kx, px, cell) in row.e:
+                if px is False or not kx.concrete:
+                    continue
+                if ky.v >= lines or kx.v >= cols:
+                    keys.add((ky.v, kx.v))
+
+    r = True
+    for (y, x) in sorted(keys):
+        # (a never-written cell and a stored default blank are the same thing there, as on the screen)
+        r = bool_and(r, alts_equal(cell_alts(L, a, y, x), cell_alts(L, b, y, x)))
+        if r is False:
+            return False
+    return r
+
+
 GEOMS_QUICK = [(1, 1), (2, 1), (1, 2), (3, 2), (2, 3)]
 GEOMS_THOROUGH = GEOMS_QUICK + [(4, 3), (3, 4), (5, 1), (1, 4)]
 
